@@ -752,12 +752,57 @@ Definition pre_step (n : node) (i : ninput) : node :=
 Definition sync_all (n : node) : node :=
   n <| n_chans := map (fun p => (fst p, (snd p) <| cs_m := msync (cs_m (snd p)) |>)) (n_chans n) |>.
 
+(* ---------- key discipline: an input that names a channel may only touch that channel ---------- *)
+Definition tcmd_key (c : tcmd) : chid :=
+  match c with TOpen _ k _ _ | TClose k | TPause k | TResume k _ | TCleanup k => k end.
+
+Definition instr_key {X} (i : instr X) : option chid :=
+  match i with
+  | IGet k | IHas k | ISend k _ | IReport k _ | ISetLimit k _ | IValidate _ k | IProtect _ k => Some k
+  | ICreate c => Some (chan_id c)
+  | ITransport c => Some (tcmd_key c)
+  | _ => None
+  end.
+
+Definition key_ok {X} (k : chid) (i : instr X) : bool :=
+  match instr_key i with Some k' => chid_eqb k' k | None => true end.
+
+(* like run, but stops (None) at the first instruction that names another channel *)
+Fixpoint run_keyed {A} (k : chid) (p : prog A) (s : nstate) : option A * nstate :=
+  match p with
+  | Ret a => (Some a, s)
+  | Do i cont =>
+      if key_ok k i then let '(x, s') := run_instr s i in run_keyed k (cont x) s'
+      else (None, s)
+  end.
+
+(* the channel an input is about (None: opens, registration, process restart) *)
+Definition input_key (self : N) (i : ninput) : option chid :=
+  match i with
+  | ASendVoucher k _ | ASendVoucherResult k _ | AUpdateValidation k _ | AClose k | ACloseWithError k
+  | APause k | AResume k | ARestart k | TChannelOpened k | TTransferInitiated k | TData _ k _ _ _
+  | TRequestReceived k _ | TResponseReceived k _ | TRequestCancelled k | TRequestDisconnected k
+  | TSendDataError k | TReceiveDataError k | TChannelCompleted k _ => Some k
+  | MRequest from m => Some (from, self, g_tid m)
+  | MResponse from m => Some (self, from, g_tid m)
+  | MRestartExisting _ m => Some (g_restart m)
+  | AOpen _ _ _ _ _ | ARegister _ | NCrash _ => None
+  end.
+
+Definition violation : nres := mkRes ROther None None.
+
 (* one input with its oracle answers *)
 Record nstep := mkStep { st_in : ninput; st_sendf : list bool; st_trf : list bool; st_vals : list valres }.
 
 Definition step (n : node) (st : nstep) : node * nres * list nout :=
   let s0 := mkNS (pre_step n (st_in st)) (st_sendf st) (st_trf st) (st_vals st) [] in
-  let '(r, s1) := run (handler (st_in st)) s0 in
-  (sync_all (s_node s1), r, s_out s1).
+  match input_key (n_self n) (st_in st) with
+  | None =>
+      let '(r, s1) := run (handler (st_in st)) s0 in
+      (sync_all (s_node s1), r, s_out s1)
+  | Some k =>
+      let '(r, s1) := run_keyed k (handler (st_in st)) s0 in
+      (sync_all (s_node s1), match r with Some x => x | None => violation end, s_out s1)
+  end.
 
 Definition init_node (self : N) : node := mkNode self [] [] 1000.
